@@ -50,13 +50,13 @@ def main(argv=None):
 
 def _arm_wall_limit(core, pid, tier, seed, scratch):
     """Last resort against a tree on which the code under test never returns (a busy loop without a scheduling point, a
-    real thread blocked for good in a part that is not run under the controlled scheduler): after VF_WALL_LIMIT seconds
+    real thread blocked for good in a part that is not run under the controlled scheduler): after VF_RUN_LIMIT seconds
     (default 3 h quick / 14 h thorough - more than ten times what the slowest check needs on this tree) the run ends with a
     VIOLATION 'hang:no_verdict_within_wall_limit' instead of never ending."""
     import shutil
     import threading
     import time
-    limit = float(os.environ.get('VF_WALL_LIMIT', '0') or 0) or (3 * 3600.0 if tier == 'quick' else 14 * 3600.0)
+    limit = float(os.environ.get('VF_RUN_LIMIT', '0') or 0) or (3 * 3600.0 if tier == 'quick' else 14 * 3600.0)
     main_pid = os.getpid()
 
     def fire():
